@@ -13,7 +13,7 @@ TB = ("Trusted: Lean 4.33 kernel; axioms at most propext, Classical.choice, Quot
 CLAIMS = {
     "C01": ("Theorem C01_every_history: for EVERY document (well-formed or not — on undecodable parts the specification itself says ReadError, see C08) and EVERY finite sequence of read calls — root fetches, element / key / property / length / string-address calls, on any handle the client was given earlier; revisits, out of order, interleaved across siblings, error-returning calls in between, the root fetched again — the model of provider/src/read.rs + lazy_value_ref.rs answers, call by call, exactly Spec.run: a function of the document bytes and each call's own position and arguments (Spec/Read.lean: positions by the eager walk specPath, values from the headers found there, first-match property lookup, documented error codes). "
             "Built from: an invariant on the lazily parsed tree (Inv: correct partial view of the value at an offset; Done: complete view), node-level refinement from ANY such view (finish_done, arrGet_ok, objGet_ok, objProp_ok — unbounded nesting), handles as paths (inv_path: a valid handle denotes a correct view of the value the eager decoder finds along the same path), updateAt_inv (operating on the node a handle denotes keeps every root a correct view), Ext (every operation only extends the tree: all handles stay valid and keep their shape), nodeOp_ok, the per-entry-point theorems C01_entry_points_equal_spec, and C01_answer_independent_of_history. "
-            "C01_reads_are_the_decoded_tree / C01_spec_is_the_decoded_tree: when the input decodes (independent tree decoder Model/Doc.decodeAll, string keys) to a document d, every entry point on every valid handle returns what the sub-document at that position says (type, nearest double, string length and bytes, container length, element/key/value by index, first-match property or null) — the header-walk specification and the decoded tree agree (DocLink1-7). Integers below 2^53 are reported exactly. Tie: every read call (root, property by name / interned id, element / key by index, length, string bytes, api-level accessors) is compared with the real provider + api crates on generated raw MessagePack (every marker, non-minimal widths, duplicate keys, sizes crossing 15/16, 31/32, 255/256, 65535/65536, 2^14-1) over histories on all handles issued so far.",
+            "C01_reads_are_the_decoded_tree / C01_spec_is_the_decoded_tree: when the input decodes (independent tree decoder Model/Doc.decodeAll, string keys) to a document d, every entry point on every valid handle returns what the sub-document at that position says (type, nearest double, string length and bytes, container length, element/key/value by index, first-match property or null) — the header-walk specification and the decoded tree agree (DocLink1-7). Integers below 2^53 are reported exactly. C01_header_reader_is_the_source_text: the model's header reader equals the marker dispatch of LazyValueRef::new regenerated arm by arm on every run. Tie: every read call (root, property by name / interned id, element / key by index, length, string bytes, api-level accessors) is compared with the real provider + api crates on generated raw MessagePack (every marker, non-minimal widths, duplicate keys, sizes crossing 15/16, 31/32, 255/256, 65535/65536, 2^14-1) over histories on all handles issued so far.",
             TB + "Handles are modelled as (root allocation, path); bump-arena address stability (the Vec pre-sized to the declared length) is not modelled — it is what makes a path a stable address. Histories include calls whose scope is not a handle (null, boolean, number, error value, forged bit patterns: answered by kind).",
             "Lean 4 invariant + refinement to an eager specification, lifted to every history, over a hand-written model + differential correspondence over documents x histories", "§4 C01"),
     "C02": ("Kernel-checked theorems: C02_completed_output_is_the_tree (for EVERY value tree of any size/depth whose integers fit 64 bits and lengths fit 32-bit headers: the write calls describing it are all accepted from a fresh writer, end in the completed state with an empty container stack, finalisation returns the bytes, and an independent eager decoder reads those bytes back to exactly that tree with nothing left over), "
